@@ -1057,6 +1057,15 @@ func (self *Analyzer) callExpression(node pAst.CallExpression) ast.AnalyzedCallE
 	// TODO: migrate this to the `core-lib` and reference the type from here
 	// (there is no result type if the base cannot be called: that error was reported above)
 	if node.IsSpawn && thisExpressionResultsIn != nil {
+		// What the thread returns reaches the thread which joins it: a function value must not (see `callArgs`).
+		if typeContainsFunction(thisExpressionResultsIn) {
+			self.error(
+				"Sending closures across threads is undefined behaviour.",
+				[]string{"The spawned function returns a value which contains a function"},
+				node.Span(),
+			)
+		}
+
 		thisExpressionResultsIn = ast.NewObjectType([]ast.ObjectTypeField{
 			ast.NewObjectTypeField(
 				pAst.NewSpannedIdent("join", node.Span()), ast.NewFunctionType(
